@@ -71,7 +71,7 @@ func TestCheck(t *testing.T) {
 			"both store modes (write-through = syncPeriod 0; periodic = syncPeriod 1h, flush goroutine replaced by explicit ticks). " +
 			"Each sequence runs once without fault to count its API calls c, then once for EVERY position p<=c and EVERY fault kind the API can produce for the verb at p: " +
 			"not-found (third party deleted the target), conflict (update/delete: version bumped; create: third party created first), transient 503 (no effect), lost response (effect + timeout), crash before, crash after. " +
-			"After each run new stores for both shards Load() from the shared ObjectTracker. Oracle = set of API states the statement permits per condition name (see run.go model). " +
+			"After each run new stores for both shards Load() from the shared ObjectTracker. Separately the REAL limiter server (startLeading / leaderCheck over the k8s store) gains a shard while the first N LISTs fail or one fault hits any call of the take-over (see takeover.go). Oracle = set of API states the statement permits per condition name (see run.go model). " +
 			"distinct = (sequence, position, kind); non-trivial = every faulted run plus baselines that made at least one API call.")
 		r.Assume("one shared client-go ObjectTracker is the API; every store instance has a private fake clientset (reactor 1 = kill switch + fault injector + call counter, reactor 2 = ObjectReaction on the shared tracker)")
 		r.Assume("a crash = the reactor flips the kill switch (every later call of that client fails) and panics with a sentinel; the store object is abandoned")
@@ -195,6 +195,8 @@ func TestCheck(t *testing.T) {
 				}
 			}
 		})
+
+		takeover(r)
 
 		r.Set("fault_runs_by_kind", kinds)
 		r.Set("fault_runs_by_kind_and_verb", hitVerbs)
